@@ -405,13 +405,18 @@ async fn h_write(w: &mut StreamWriter<SimWrite>, st_world: &Shared, idx: usize, 
     let stream = u8::from(w.stream());
     let mut off = 0;
     // like write_all: each call may accept at most 65535 bytes
+    let mut carry: Option<usize> = None; // announced length of a record whose write failed and is being retried
     loop {
         let chunk = &data[off..];
         // sometimes the first poll offers only a prefix and later polls a longer buffer (a write that was
         // abandoned while Pending and retried with more data): the record announced by the first poll must
         // still carry exactly its bytes
-        let first_len = { let mut wl = lock(st_world); if chunk.len() > 1 && wl.cx.ch.chance(1, 5) { let l = wl.cx.ch.range(1, chunk.len() - 1); wl.cx.probe("write_repolled_with_longer_buffer"); l } else { chunk.len() } };
-        let mut polls = 0u32;
+        let first_len = match carry {
+            Some(l) => l,
+            None => { let mut wl = lock(st_world); if chunk.len() > 1 && wl.cx.ch.chance(1, 5) { let l = wl.cx.ch.range(1, chunk.len() - 1); wl.cx.probe("write_repolled_with_longer_buffer"); l } else { chunk.len() } }
+        };
+        // a retried write continues the record set up before: it must not offer a shorter buffer
+        let mut polls = if carry.is_some() { 1u32 } else { 0u32 };
         let r = poll_fn(|cx| {
             let b = if polls == 0 { &chunk[..first_len] } else { chunk };
             polls += 1;
@@ -419,6 +424,7 @@ async fn h_write(w: &mut StreamWriter<SimWrite>, st_world: &Shared, idx: usize, 
         }).await;
         match r {
             Ok(n) => {
+                carry = None;
                 let mut wl = lock(st_world);
                 wl.cx.ev("h_write_ok", n as u64, u64::from(stream));
                 if n != first_len.min(65535) {
@@ -436,6 +442,13 @@ async fn h_write(w: &mut StreamWriter<SimWrite>, st_world: &Shared, idx: usize, 
             Err(e) => {
                 let k = kind_name(&e);
                 let mut wl = lock(st_world);
+                if wl.retry_failed_writes && e.kind() == io::ErrorKind::BrokenPipe {
+                    // documented: after an error the lock is kept and a subsequent call continues the record
+                    wl.cx.probe("failed_write_retried");
+                    wl.cx.ev("h_write_retry", 0, u64::from(stream));
+                    carry = Some(first_len);
+                    continue;
+                }
                 let rp = wl.read_pos;
                 wl.handler_log[idx].errors.push((k, "write".into(), rp));
                 return Err(e);
@@ -1223,23 +1236,35 @@ pub fn c09(cx: &mut Ctx) -> VResult {
     Ok(())
 }
 
-pub const C10_PROBES: &[&str] = &["write_repolled_with_longer_buffer", "writers_2plus", "write_65535_capped", "zero_length_write", "reply_between_writer_records"];
+pub const C10_PROBES: &[&str] = &["failed_write_retried", "write_repolled_with_longer_buffer", "writers_2plus", "write_65535_capped", "zero_length_write", "reply_between_writer_records"];
 
 /// C10: concurrent writers + reply flushing: complete, non-interleaved records.
 pub fn c10(cx: &mut Ctx) -> VResult {
     cx.declare(F_TRANSPORT, P_BASE);
     cx.declare(F_SPURIOUS, &["reader_subtask"]);
     cx.declare(F_FLUSH, &[]);
+    cx.declare(&["write_error"], &[]);
     cx.declare(&[], C10_PROBES);
     let o = PlanOpts { max_reqs: 2, noise: 1 + cx.ch.pick(5), closed_loop: false, abort: false, small_buf_bias: cx.ch.chance(1, 2), force_keep: false, either_noise: false };
     let plan = gen_plan(cx, &o);
     note_plan(cx, &plan);
     let mut knobs = gen_knobs(cx, true, plan.wire.len());
     if cx.ch.chance(1, 2) { knobs.write_pending = cx.ch.one_of(&[2u32, 6, 10]); }
+    // extension with fault injection: one transient write error; writers retry the failed write, which per the
+    // StreamWriter documentation continues the same record (the lock is kept across the error)
+    let wfault = if cx.ch.chance(1, 3) { WFault::ErrAtCall(cx.ch.range(0, 60)) } else { WFault::None };
+    let faulted = wfault != WFault::None;
     let inner = take_cx(cx);
-    let mut out = run_conn(inner, &plan, knobs, &ConnOpts { mode: HandlerMode::Writers, rfault: RFault::None, wfault: WFault::None, shutdown: None, strict_no_spurious: false });
+    let mut out = run_conn_with(inner, &plan, knobs, &ConnOpts { mode: HandlerMode::Writers, rfault: RFault::None, wfault, shutdown: None, strict_no_spurious: false }, |w| w.retry_failed_writes = true);
     give_back(cx, &mut out);
     handler_violations(&out)?;
+    if faulted && out.world.write_failed_at.is_some() {
+        // the error may also have hit a reply flush or the epilogue, which ends the connection: accept a
+        // missing tail, but every complete record must still be right and nothing may interleave
+        check_history_mode(&out, &plan, false, "c10", true, usize::MAX, true)?;
+        check_replies(&out, &plan, out.world.read_pos, false, "c10")?;
+        return Ok(());
+    }
     for inv in &out.world.handler_log {
         let mut tags = std::collections::BTreeSet::new();
         for (s, d, n) in &inv.writes {
@@ -1329,6 +1354,7 @@ pub fn c12(cx: &mut Ctx) -> VResult {
     let inner = take_cx(cx);
     let hmode = if cx.ch.chance(1, 4) { HandlerMode::Readers } else { HandlerMode::Seq };
     let copts = |rf, wf| ConnOpts { mode: hmode, rfault: rf, wfault: wf, shutdown: None, strict_no_spurious: true };
+    let rkind = match cx.ch.pick(4) { 0 => io::ErrorKind::ConnectionReset, 1 => io::ErrorKind::Interrupted, 2 => io::ErrorKind::TimedOut, _ => io::ErrorKind::Other };
     let mut out = run_conn_with(inner, &plan, knobs, &copts(RFault::None, WFault::None), |w| w.force_propagate = true);
     give_back(cx, &mut out);
     handler_violations(&out)?;
@@ -1349,7 +1375,7 @@ pub fn c12(cx: &mut Ctx) -> VResult {
         icx.ch.keep_log = false;
         let label = format!("{rf:?}/{wf:?}");
         if cx.trace { cx.events.push(format!("--- fault run {label}")); }
-        let fo = run_conn_with(icx, &plan, knobs, &copts(rf, wf), |w| w.force_propagate = true);
+        let fo = run_conn_with(icx, &plan, knobs, &copts(rf, wf), |w| { w.force_propagate = true; w.read_err_kind = rkind; });
         // merge statistics
         cx.st.merge(&fo.world.cx.st);
         cx.states.extend(fo.world.cx.states.iter().copied());
@@ -1379,6 +1405,9 @@ pub fn c12(cx: &mut Ctx) -> VResult {
                 vfail!("c12_task_not_terminated", site, "fault {label}: the transport failed / ended but the connection task is still pending (read {} bytes, handler invocations {})", w.read_pos, w.handler_log.len());
             }
         }
+        if w.read_error_fired {
+            vcheck!(w.reads_after_read_error == 0, "c12_read_after_error", "fault {label} ({rkind:?}): {} transport reads after the transport reported an error", w.reads_after_read_error);
+        }
         // 2. no handler for a request whose preamble did not arrive completely
         if let RFault::EofAt(o) = rf {
             let complete = plan.reqs.iter().filter(|r| r.info.end <= o).count();
@@ -1389,7 +1418,7 @@ pub fn c12(cx: &mut Ctx) -> VResult {
         for inv in &w.handler_log {
             for (k, _, _) in &inv.errors {
                 if k == "UnexpectedEof" { cx.probe("handler_got_unexpected_eof"); }
-                if k == "ConnectionReset" || k == "BrokenPipe" || k == "WriteZero" { cx.probe("handler_got_injected_error"); }
+                if k == "ConnectionReset" || k == "BrokenPipe" || k == "WriteZero" || k == "Interrupted" || k == "TimedOut" || k == "Other" { cx.probe("handler_got_injected_error"); }
             }
         }
         // 4. nothing written after a failed write (handlers propagate)
